@@ -39,7 +39,7 @@ func c09Run(prog string, doc any) (any, string, int) {
 	return back, out.String(), k
 }
 
-var c09Indices = []float64{-4, -3, -1, 0, 1.5, 2, 3, 5}
+var c09Indices = []float64{-4, -3, -1.5, -1, -0.5, 0, 1.5, 2, 3, 5}
 
 // c09StoreIndex is the reference for `arr[idx] = v` on a 3-element array.
 func c09StoreIndex(arr []any, idx float64, v any) ([]any, bool) {
@@ -247,6 +247,8 @@ var c09Sinks = []string{
 	"w = @\nt = $.obj.k.pluck('z'); #t.z#",
 	"w = @\nt = $.arr.sort(); #t[0]#",
 	"w = @\nfor (q in $.s) { #q# }",
+	// a parameter that received no argument is a fresh null, not the global of the same name
+	"gm = 7; gn = 8\nh(@)\nprint gm, gn",
 }
 
 // '_' = the place written to
@@ -260,7 +262,8 @@ var c09Mutations = []string{"_ = 100", "_ += 1", "_++", "_--", "++_", "_ -= 2", 
 func VHC09CopyMatrix() {
 	si := vh.Choose("src", len(c09Sources))
 	src := c09Sources[si]
-	sink := c09Sinks[vh.Choose("sink", len(c09Sinks))]
+	sinkI := vh.Choose("sink", len(c09Sinks))
+	sink := c09Sinks[sinkI]
 	mut := c09Mutations[vh.Choose("mut", len(c09Mutations))]
 	body := ""
 	// the sink text with the mutation spliced in: "#x#" -> "x<mut>"
@@ -277,13 +280,18 @@ func VHC09CopyMatrix() {
 	}
 	body = replaceAll(body, "@", src)
 	gmut := replaceAll(mut, "_", "p")
-	prog := "function g(p) { " + gmut + " }\n{ v = 7; o = {k: 8}; a = {}\nprint " + src + "\n" + body + "\nprint " + src + ", v, o, a }"
+	hmut := replaceAll(mut, "_", "gm") + "; " + replaceAll(mut, "_", "gn")
+	prog := "function g(p) { " + gmut + " }\nfunction h(p, gm, gn) { " + hmut + " }\n{ v = 7; o = {k: 8}; a = {}\nprint " + src + "\n" + body + "\nprint " + src + ", v, o, a }"
 	v1 := 1.0
 	back, out, k := c09Run(prog, c09Doc(v1))
 	vh.Reach("copy evaluated")
 	vh.Assert(k == OK, "C09 copy matrix: the program runs: "+lbl(prog))
 	show := c09SrcShow[si]
-	vh.Assert(out == show+"\n"+show+" 7 {\"k\": 8} {}\n", "C09 copy matrix: the source is unchanged after its copy was mutated: "+lbl(body))
+	mid := ""
+	if sinkI == len(c09Sinks)-1 {
+		mid = "7 8\n" // the globals named like the unfilled parameters are untouched
+	}
+	vh.Assert(out == show+"\n"+mid+show+" 7 {\"k\": 8} {}\n", "C09 copy matrix: the source is unchanged after its copy was mutated: "+lbl(body))
 	vh.Assert(jsonEqual(back, c09Doc(v1)), "C09 copy matrix: the input document is unchanged after a copy of one of its scalars was mutated: "+lbl(body))
 }
 
